@@ -144,11 +144,27 @@ fn mat_inputs(o: &Opts, rng: &mut Rng) -> Vec<(M3, M3, [f64; 3], [f64; 3], f64)>
     for i in 0..nv {
         // the structured matrices (the first 60) also serve as right operands of random matrices and vice versa
         let b = if i < 60 { v[nv - 1 - i] } else if i < 120 { v[i - 60] } else { v[(i * 7 + 3) % nv] };
-        let vec = [rng.range(-2.0, 2.0), rng.range(-2.0, 2.0), rng.range(-2.0, 2.0)];
-        let u = [rng.range(-2.0, 2.0), rng.range(-2.0, 2.0), rng.range(-2.0, 2.0)];
+        let mut vec = [rng.range(-2.0, 2.0), rng.range(-2.0, 2.0), rng.range(-2.0, 2.0)];
+        let mut u = [rng.range(-2.0, 2.0), rng.range(-2.0, 2.0), rng.range(-2.0, 2.0)];
         let mut x = rng.range(0.25, 2.0);
         if rng.below(2) == 0 {
             x = -x;
+        }
+        // every third operand set: exact units, halves, zeros and twos of both signs in the VECTOR and SCALAR positions too
+        // (a "multiply by one is a no-op" shortcut taken for -1 as well shows only when an operand is exactly -1)
+        if i % 3 == 0 {
+            const UNITS: [f64; 8] = [-2.0, -1.0, -0.5, -0.0, 0.0, 0.5, 1.0, 2.0];
+            for k in 0..3 {
+                if rng.below(3) != 0 {
+                    vec[k] = UNITS[rng.below(8) as usize];
+                }
+                if rng.below(3) != 0 {
+                    u[k] = UNITS[rng.below(8) as usize];
+                }
+            }
+            if rng.below(2) == 0 {
+                x = [-2.0, -1.0, -0.5, 0.5, 1.0, 2.0][rng.below(6) as usize];
+            }
         }
         out.push((v[i], b, vec, u, x));
     }
